@@ -1,5 +1,8 @@
 import CqlVerif.Model.Reconnect
 import CqlVerif.Model.Cluster
+import CqlVerif.Model.Slot
+import CqlVerif.Spec.SlotShape
+import CqlVerif.Gen.SlotFacts
 /-!
 # C16 — The proxy tracks backend topology and heals lost backend connections
 (part 1: the reconnection back-off calculator)
@@ -181,5 +184,165 @@ theorem outage_iff_not_connected (s : St) (e : Ev) (h : outage s = !s.connected)
 /-- non-vacuity -/
 example : (step (step { hosts := [0, 1], lb := [0, 1], pools := [0, 1] } (.refresh 0 [0, 1, 2])) (.refresh 0 [0, 2])).lb = [0, 2] := by
   decide
+
+end CqlVerif.C16
+
+/-! (part 3: keeping pooled connections and the control connection alive) -/
+namespace CqlVerif.C16
+open CqlVerif.Reconnect CqlVerif.Slot
+
+/-- **slot_shape_ok** — the facts read off /repo's current `connPool.stayConnected` and
+`Cluster.stayConnected` are the ones Model/Slot.lean models (regenerated on every run) -/
+theorem slot_shape_ok : Gen.SlotFacts.facts = SlotShape.expected := by decide +kernel
+
+/-- the loop is looking after its connection: it has one, or a connect timer is armed, or it was told to stop -/
+def Tended (s : Slot.St) : Prop := s.done = true ∨ s.connected = true ∨ s.pending = true
+
+/-- the private policy clone keeps the configured delays -/
+def Configured (base max : Int) (s : Slot.St) : Prop :=
+  s.pol.base = base ∧ s.pol.max = max ∧ s.pol.maxAttempts = calcMaxAttempts base
+
+theorem nextDelay_configured (base max : Int) (p : Policy) (j : Int)
+    (h : p.base = base ∧ p.max = max ∧ p.maxAttempts = calcMaxAttempts base) :
+    (nextDelay p j).2.base = base ∧ (nextDelay p j).2.max = max ∧ (nextDelay p j).2.maxAttempts = calcMaxAttempts base := by
+  unfold nextDelay
+  split <;> exact h
+
+theorem settle_tended (j1 j2 : Int) (s : Slot.St) : Tended (settle j1 j2 s) := by
+  unfold settle Tended
+  by_cases hd : s.done = true
+  · simp [hd]
+  · by_cases hc : s.connected = true
+    · simp [hc]
+    · by_cases hp : s.pending = true
+      · simp [hp]
+      · simp only [Bool.not_eq_true] at hd hc hp
+        simp only [hd, hc, hp, Bool.or_self, Bool.false_eq_true, ↓reduceIte]
+        split <;> simp
+
+/-- **never_abandoned** — for every history of lost connections, failed and successful connection
+attempts and jitters, the loop of a pool slot and the loop of the control connection are, after
+every turn, either connected, or waiting for an armed connect timer, or stopped by the proxy's own
+shutdown: a lost connection is never left without a reconnect scheduled. -/
+theorem never_abandoned (js : Nat → Int × Int) (s0 : Slot.St) (h0 : Tended s0) (i : Nat) (es : List Slot.Ev) :
+    Tended (Slot.run js s0 i es) := by
+  induction es generalizing s0 i with
+  | nil => exact h0
+  | cons e es ih => exact ih _ (settle_tended _ _ _) _
+
+theorem poolInit_tended (base max : Int) : Tended (poolInit base max) := Or.inr (Or.inr rfl)
+theorem ctlInit_tended (base max : Int) : Tended (ctlInit base max) := Or.inr (Or.inl rfl)
+
+/-- **heals** — whenever the loop is without a connection (and not stopped), the next connection
+attempt that succeeds gives it one; and a connection reported closed is replaced by an armed timer
+in the same turn -/
+theorem heals (j1 j2 : Int) (s : Slot.St) (ht : Tended s) (hd : s.done = false) (hc : s.connected = false) :
+    (Slot.step j1 j2 s (.timer true)).connected = true ∧ (Slot.step j1 j2 s (.timer true)).pol.attempts = 0 := by
+  have hp : s.pending = true := by
+    rcases ht with h | h | h
+    · rw [hd] at h; cases h
+    · rw [hc] at h; cases h
+    · exact h
+  simp [Slot.step, react, settle, hd, hc, hp, reset]
+
+theorem loss_rearms (j1 j2 : Int) (s : Slot.St) (hd : s.done = false) (hc : s.connected = true) :
+    let t := Slot.step j1 j2 s .closed
+    t.connected = false ∧ t.pending = true ∧ t.armed.length = s.armed.length + 1 := by
+  simp only [Slot.step, react, hd, hc, Bool.not_true, Bool.or_self, Bool.false_eq_true, ↓reduceIte, settle]
+  split <;> simp
+
+/-- **backoff_restarts_after_success** — the delay armed after a connection that had been
+re-established is lost again depends only on the configured delays, not on how many attempts the
+previous outage took: it is what a fresh policy yields (the pool's loop draws twice). -/
+theorem backoff_restarts_after_success (j1 j2 k1 k2 : Int) (s : Slot.St) (ht : Tended s) (hd : s.done = false)
+    (hc : s.connected = false) :
+    (Slot.step k1 k2 (Slot.step j1 j2 s (.timer true)) .closed).armed =
+      s.armed ++ [if s.double then (nextDelay (nextDelay (reset s.pol) k1).2 k2).1 else (nextDelay (reset s.pol) k1).1] := by
+  have hp : s.pending = true := by
+    rcases ht with h | h | h
+    · rw [hd] at h; cases h
+    · rw [hc] at h; cases h
+    · exact h
+  simp only [Slot.step, react, settle, hd, hc, hp, Bool.or_false, Bool.or_true, Bool.not_true, Bool.false_eq_true,
+    ↓reduceIte, Bool.or_self]
+  cases hdb : s.double <;> simp
+
+theorem step_configured (base max : Int) (j1 j2 : Int) (s : Slot.St) (e : Slot.Ev) (h : Configured base max s) :
+    Configured base max (Slot.step j1 j2 s e) := by
+  have hr : Configured base max (react s e) := by
+    cases e with
+    | ctxDone => exact h
+    | timer ok =>
+      simp only [react]
+      split
+      · exact h
+      · split
+        · exact h
+        · exact h
+    | closed => simp only [react]; split <;> exact h
+  unfold Slot.step settle
+  generalize react s e = t at hr ⊢
+  split
+  · exact hr
+  · have h1 := nextDelay_configured base max t.pol j1 hr
+    split
+    · exact nextDelay_configured base max _ j2 h1
+    · exact h1
+
+/-- **armed_within_bounds** — every delay a connect timer is ever armed with lies within the
+configured `[base, max]` (for the configurations `delay_bounds` covers), whatever the history -/
+theorem armed_within_bounds (base max : Int) (h0 : 0 < base) (h1 : base ≤ max) (h2 : base < 17592186044416)
+    (hmax : max < two63) (js : Nat → Int × Int)
+    (hj : ∀ i, (85 ≤ (js i).1 ∧ (js i).1 < 115) ∧ (85 ≤ (js i).2 ∧ (js i).2 < 115))
+    (s0 : Slot.St) (hcfg : Configured base max s0) (harm : ∀ d ∈ s0.armed, base ≤ d ∧ d ≤ max) (i : Nat) (es : List Slot.Ev) :
+    ∀ d ∈ (Slot.run js s0 i es).armed, base ≤ d ∧ d ≤ max := by
+  have hb : ∀ (p : Policy) (j : Int), (p.base = base ∧ p.max = max ∧ p.maxAttempts = calcMaxAttempts base) →
+      (85 ≤ j ∧ j < 115) → base ≤ (nextDelay p j).1 ∧ (nextDelay p j).1 ≤ max := by
+    intro p j hp hj
+    have := delay_bounds base max h0 h1 h2 hmax p.attempts j hj
+    have hpe : p = { (new base max) with attempts := p.attempts } := by
+      cases p; simp only [new] at *; obtain ⟨a, b, c⟩ := hp; subst a; subst b; subst c; rfl
+    rw [← hpe] at this
+    exact this
+  induction es generalizing s0 i with
+  | nil => exact harm
+  | cons e es ih =>
+    apply ih _ (step_configured base max _ _ s0 e hcfg)
+    have hr : Configured base max (react s0 e) ∧ (react s0 e).armed = s0.armed := by
+      cases e with
+      | ctxDone => exact ⟨hcfg, rfl⟩
+      | timer ok =>
+        simp only [react]
+        split
+        · exact ⟨hcfg, rfl⟩
+        · split <;> exact ⟨hcfg, rfl⟩
+      | closed => simp only [react]; split <;> exact ⟨hcfg, rfl⟩
+    unfold Slot.step settle
+    generalize react s0 e = t at hr ⊢
+    split
+    · rw [hr.2]; exact harm
+    · intro d hd
+      have hc1 := nextDelay_configured base max t.pol (js i).1 hr.1
+      split at hd
+      · simp only [List.mem_append, List.mem_singleton] at hd
+        rcases hd with hd | rfl
+        · rw [hr.2] at hd; exact harm d hd
+        · exact hb _ _ hc1 (hj i).2
+      · simp only [List.mem_append, List.mem_singleton] at hd
+        rcases hd with hd | rfl
+        · rw [hr.2] at hd; exact harm d hd
+        · exact hb _ _ hr.1 (hj i).1
+
+/-- non-vacuity: a pool slot (1 ms / 3 s): connected, lost, two failed attempts, success, lost again -
+the timers were armed with the 2nd, 4th, 6th delay of the sequence and, after the success, the 2nd again -/
+example :
+    (Slot.run (fun _ => (100, 100)) (poolInit 1000000 3000000000) 0
+      [.timer true, .closed, .timer false, .timer false, .timer true, .closed]).armed
+      = [103000000, 109000000, 133000000, 103000000] := by decide
+/-- … and the control connection's loop steps through every delay -/
+example :
+    (Slot.run (fun _ => (100, 100)) (ctlInit 1000000 3000000000) 0
+      [.closed, .timer false, .timer false, .timer true, .closed]).armed
+      = [102000000, 103000000, 105000000, 102000000] := by decide
 
 end CqlVerif.C16
